@@ -51,11 +51,17 @@ Theorem C19_object_parse_total : forall pj i o, iter_ok pj i -> iter_object i = 
 Proof.
   intros pj i o Hi Ho. eapply okP_fine. apply obj_parse_total. eapply object_closed; eassumption.
 Qed.
+(* Interface() on ANY tape, with no condition at all (since fix F19: NextElementBytes refuses
+   members that point backwards, so the loop that needed the condition below cannot arise) *)
+Theorem C19_any_tape_interface : forall pj, fine (interface_doc pj).
+Proof. exact interface_doc_fine_any. Qed.
+
 (* Interface(): under the one condition Deserialize establishes; the tape violating it on
    which the code looped before fix F19 is an error now *)
 Definition C19_interface_doc_fine := interface_doc_fine.
 Definition C19_backward_member_array_is_an_error := backarr_interface.
 
+Print Assumptions C19_any_tape_interface.
 Print Assumptions C19_object_parse_total.
 Print Assumptions C19_deser_blob_no_crash.
 Print Assumptions C19_deserialize_result_total.
